@@ -1,6 +1,7 @@
 //! Domain `rpc`: frame layer (C12) and handler registry (C13) of datacake-rpc.
 use std::net::SocketAddr;
 use std::sync::OnceLock;
+use std::time::Duration;
 
 use datacake_rpc::{
     Channel, DataView, ErrorCode, Handler, Request, RpcClient, RpcService, Server, ServiceRegistry,
@@ -89,6 +90,76 @@ pub struct Payload {
 pub struct Fail {
     pub code: u8,
     pub message: String,
+}
+
+/// A request whose reply is `size` bytes, each `id as u8` (C14: faults while a reply BODY is in flight).
+#[repr(C)]
+#[derive(Serialize, Deserialize, Archive, PartialEq, Debug, Clone)]
+#[archive(check_bytes)]
+pub struct Fetch {
+    pub id: u64,
+    pub size: u32,
+}
+
+#[datacake_rpc::async_trait]
+impl Handler<Fetch> for EchoSvc {
+    type Reply = Vec<u8>;
+    async fn on_message(&self, msg: Request<Fetch>) -> Result<Self::Reply, Status> {
+        let (id, size): (u64, u32) = (msg.id.into(), msg.size.into());
+        Ok(vec![id as u8; size as usize])
+    }
+}
+
+/// A byte-forwarding TCP proxy in front of the server.  Once armed it lets `budget` more bytes of server -> client traffic through
+/// and then either goes quiet in both directions (kind 1: a held link / a partition of an established connection) or closes both
+/// sockets (kind 2: the connection is torn down).
+#[derive(Clone)]
+struct ProxyFaults {
+    kind: std::sync::Arc<std::sync::atomic::AtomicU8>,
+    budget: std::sync::Arc<std::sync::atomic::AtomicI64>,
+}
+
+async fn start_proxy(upstream: SocketAddr, faults: ProxyFaults) -> SocketAddr {
+    let listener = tokio::net::TcpListener::bind("127.0.0.1:0").await.expect("proxy bind");
+    let addr = listener.local_addr().unwrap();
+    tokio::spawn(async move {
+        loop {
+            let Ok((client, _)) = listener.accept().await else { return };
+            let Ok(server) = tokio::net::TcpStream::connect(upstream).await else { continue };
+            let _ = client.set_nodelay(true);
+            let _ = server.set_nodelay(true);
+            tokio::spawn(proxy_forward(client, server, faults.clone()));
+        }
+    });
+    addr
+}
+
+async fn proxy_forward(mut client: tokio::net::TcpStream, mut server: tokio::net::TcpStream, faults: ProxyFaults) {
+    use std::sync::atomic::Ordering;
+    use tokio::io::{AsyncReadExt, AsyncWriteExt};
+    let mut up = vec![0u8; 16 << 10];
+    let mut down = vec![0u8; 16 << 10];
+    loop {
+        tokio::select! {
+            n = client.read(&mut up) => {
+                let n = match n { Ok(0) | Err(_) => return, Ok(n) => n };
+                if server.write_all(&up[..n]).await.is_err() { return; }
+            },
+            n = server.read(&mut down) => {
+                let n = match n { Ok(0) | Err(_) => return, Ok(n) => n };
+                let kind = faults.kind.load(Ordering::SeqCst);
+                let mut pass = n;
+                if kind != 0 {
+                    let left = faults.budget.fetch_sub(n as i64, Ordering::SeqCst);
+                    pass = left.clamp(0, n as i64) as usize;
+                }
+                if client.write_all(&down[..pass]).await.is_err() { return; }
+                if pass < n {
+                    if kind == 1 { std::future::pending::<()>().await } else { return }
+                }
+            },
+        }
+    }
 }
 
 fn splitmix(s: &mut u64) -> u64 {
@@ -203,6 +274,7 @@ impl RpcService for EchoSvc {
     fn register_handlers(registry: &mut ServiceRegistry<Self>) {
         registry.add_handler::<Payload>();
         registry.add_handler::<Fail>();
+        registry.add_handler::<Fetch>();
     }
 }
 
@@ -452,6 +524,44 @@ impl Domain for RpcDomain {
                     },
                     Err(s) => format!("echo {}", status_str(&s)),
                 }
+            },
+            "proxy" => {
+                // proxy <timeout_ms|0> <reply size> <none|hold|close> <budget bytes>: real transport (hyper over loopback TCP) through
+                // the byte proxy; a first large reply goes through unharmed, then the fault is armed (it strikes after `budget`
+                // more reply bytes) and the SAME request is made again.  Reports the outcome and whether the call returned within
+                // the timeout (+ 400 ms of scheduling slack); a call still pending after 4 s + 4 x timeout is `pending`.
+                use std::sync::atomic::Ordering;
+                let (tmo_ms, size, budget) = (p_u64(t[1]), p_u64(t[2]) as u32, p_u64(t[4]) as i64);
+                let kind: u8 = match t[3] { "hold" => 1, "close" => 2, _ => 0 };
+                self.server();
+                let upstream = self.addr;
+                runtime().block_on(async move {
+                    let faults = ProxyFaults { kind: Default::default(), budget: Default::default() };
+                    let proxy = start_proxy(upstream, faults.clone()).await;
+                    let mut client = RpcClient::<EchoSvc>::new(Channel::connect(proxy));
+                    if tmo_ms > 0 { client.set_timeout(Duration::from_millis(tmo_ms)); }
+                    match client.send(&Fetch { id: 1, size }).await {
+                        Ok(r) if r.len() == size as usize => {},
+                        other => return format!("proxy setup-failed {:?}", other.map(|r| r.len()).map_err(|e| e.code)),
+                    }
+                    faults.budget.store(budget, Ordering::SeqCst);
+                    faults.kind.store(kind, Ordering::SeqCst);
+                    let start = std::time::Instant::now();
+                    let patience = Duration::from_millis(4000 + 4 * tmo_ms);
+                    let res = tokio::time::timeout(patience, client.send(&Fetch { id: 2, size })).await;
+                    let took = start.elapsed();
+                    let out = match res {
+                        Err(_) => "pending".to_string(),
+                        Ok(Ok(r)) => if r.len() == size as usize && r.iter().all(|b| *b == 2) { "reply".to_string() } else { "wrong-reply".to_string() },
+                        Ok(Err(st)) => match st.code {
+                            ErrorCode::ConnectionError => "conn".to_string(),
+                            ErrorCode::Timeout => "timeout".to_string(),
+                            c => format!("code{}", code_num(&c)),
+                        },
+                    };
+                    let bound = tmo_ms == 0 || took <= Duration::from_millis(tmo_ms + 400);
+                    format!("proxy {} {}", out, if bound { "in-time" } else { "late" })
+                })
             },
             "echo-burst" => {
                 // echo-burst <seed> <size> <n>: n echo requests of `size` bytes IN FLIGHT AT ONCE over ONE shared connection (what a
